@@ -9,6 +9,7 @@ import (
 	"github.com/lightninglabs/lightning-node-connect/gbn"
 
 	"verif/harness/gbnrun"
+	"verif/harness/vnet"
 )
 
 // TestC13Keepalive: the transport goes silent at many instants with 0..n+2
@@ -99,6 +100,55 @@ func TestC13Keepalive(t *testing.T) {
 			dur := 10000 * time.Second
 			if !thorough {
 				dur = 1500 * time.Second
+			}
+			cfg.OnReady = func(r *gbnrun.Run) {
+				r.Rec.Emit("kaCfg", "pingC", ms(s.pc), "pongC", ms(s.qc), "pingS", ms(s.ps), "pongS", ms(s.qs))
+				time.Sleep(dur)
+				synctest.Wait()
+				r.Rec.Emit("kaEnd", "rtC", rtMs(r.Client), "rtS", rtMs(r.Server))
+				r.Close("c", "z")
+				r.Close("s", "z")
+			}
+			var run *gbnrun.Run
+			synctest.Test(t, func(t *testing.T) { run = gbnrun.Execute(cfg) })
+			ts.add("all", run.Rec.Events(), desc, true, nil)
+		}
+		// a live peer behind a link that loses single packets: every third
+		// ACK (all of them answer keepalive pings here) or every third ping
+		// is lost; the retransmission is answered well within the pong
+		// timeout, so nobody may close
+		for _, lose := range []string{"ack", "ping"} {
+			idx++
+			s, lose := s, lose
+			lat := 20 * time.Millisecond
+			desc := map[string]any{"kind": "alive-lossy", "setting": si, "lose": lose, "i": idx}
+			noteCurrent(dir, desc)
+			rt := minDur(s.qc, s.qs) / 5
+			if rt < 100*time.Millisecond {
+				rt = 100 * time.Millisecond
+			}
+			cnt := map[string]int{}
+			cfg := gbnrun.Config{
+				N: 2, Static: rt, Latency: lat,
+				Ping: [2]time.Duration{s.pc, s.ps}, Pong: [2]time.Duration{s.qc, s.qs},
+				Msgs: [2]int{0, 0}, Horizon: 5 * time.Hour, RecvForever: true,
+				CloseScript: func(r *gbnrun.Run) {},
+				Extra:       []gbn.TimeoutOptions{gbn.WithHandshakeTimeout(time.Second)},
+				Decide: func(from string, i int, pkt []byte, now time.Duration) vnet.Fate {
+					isAck := len(pkt) > 0 && pkt[0] == gbn.ACK
+					isPing := len(pkt) >= 4 && pkt[0] == gbn.DATA && pkt[3] == gbn.TRUE
+					if (lose == "ack" && isAck) || (lose == "ping" && isPing) {
+						cnt[from]++
+						if cnt[from]%3 == 1 {
+							return vnet.Fate{Copies: 0}
+						}
+					}
+					return vnet.Fate{Copies: 1}
+				},
+			}
+			dur := 400 * time.Second
+			if thorough {
+				dur = 4000 * time.Second
 			}
 			cfg.OnReady = func(r *gbnrun.Run) {
 				r.Rec.Emit("kaCfg", "pingC", ms(s.pc), "pongC", ms(s.qc), "pingS", ms(s.ps), "pongS", ms(s.qs))
